@@ -70,6 +70,8 @@ def check(P, rep):
         rep.check(bool(good) and g.success_needs([e.node for e in good]), 'C15.R2', '%s::migrate:event' % cn,
                   'every success exit of migrate is preceded by the `upgraded` event carrying version()', entry_id(g),
                   '; '.join(e.describe() for e in evs)[:200])
+    for cn_ in ups:
+        storage_classes(P, rep, 'C15.R3', cn_, {'Interfaces_Migrating': 'instance', 'Interfaces_Owner': 'instance'})
     # R3 who-may-write the flag
     nset = nrem = 0
     for cn, en in P.all_entries():
